@@ -1031,6 +1031,11 @@ def r10(F, rep):
     off_grid_membership(F, rep, "C03-R10")
 
 
+def r11(F, rep):
+    from .rules_c15 import mult_offset
+    mult_offset(F, rep, "C03-R11")
+
+
 def run(F, rep, tier):
     r1(F, rep)
     r2(F, rep)
@@ -1042,3 +1047,4 @@ def run(F, rep, tier):
     r8(F, rep)
     r9(F, rep)
     r10(F, rep)
+    r11(F, rep)
